@@ -54,6 +54,9 @@ pub struct PState {
     /// successful pauses observed since the last observed daily reset
     pub pauses_in_window: u8,
     pub devs: u8,
+    /// clock time at which the model last saw the daily counter being reset (0 = never): resets are events in
+    /// time, whatever timestamp the program stores for them
+    pub reset_at: i64,
 }
 
 pub struct PModel {
@@ -126,7 +129,7 @@ impl Model for PModel {
     type Action = PAct;
 
     fn roots(&self) -> Vec<(String, PState)> {
-        vec![("fresh".into(), PState { s: self.root.clone(), pauses_in_window: 0, devs: 0 })]
+        vec![("fresh".into(), PState { s: self.root.clone(), pauses_in_window: 0, devs: 0, reset_at: 0 })]
     }
 
     fn key(&self, st: &PState) -> Key {
@@ -141,6 +144,8 @@ impl Model for PModel {
         h.update(&x.to_le_bytes());
         h.update(&y.to_le_bytes());
         h.update(&cx.to_le_bytes());
+        let since = if st.reset_at == 0 { -1 } else { clip(st.s.now - st.reset_at, 0, DAY + 2) };
+        h.update(&since.to_le_bytes());
         *h.finalize().as_bytes()
     }
 
@@ -161,6 +166,7 @@ impl Model for PModel {
         let mut next_devs = st.devs;
         let mut violations = vec![];
         let mut pauses = st.pauses_in_window;
+        let mut reset_at = st.reset_at;
         let (code, committed) = match a {
             PAct::Tick(d) => {
                 s.advance(*d);
@@ -219,7 +225,17 @@ impl Model for PModel {
                     if pre.last_reset != 0 && post.last_reset - pre.last_reset < DAY {
                         violations.push(Violation { clause: "C15.resets_24h_apart".into(), detail: format!("daily counter reset {} s after the previous one", post.last_reset - pre.last_reset) });
                     }
+                    // ... and by the clock: the reset happens now, whatever timestamp is stored for it
+                    if reset_at != 0 && now - reset_at < DAY {
+                        violations.push(Violation { clause: "C15.resets_24h_apart".into(), detail: format!("daily counter reset {} s of clock time after the previous reset (stored window start moved from {} to {}, now {})", now - reset_at, pre.last_reset, post.last_reset, now) });
+                    }
+                    reset_at = now;
                     pauses = 1;
+                } else if post.daily <= pre.daily {
+                    // the stored counter went down (or stood still) on a successful pause without the window moving:
+                    // a reset in disguise
+                    violations.push(Violation { clause: "C15.max_three_pauses_per_window".into(), detail: format!("a successful pause took the daily counter from {} to {} without a daily reset", pre.daily, post.daily) });
+                    pauses = (pauses + 1).min(5);
                 } else {
                     pauses = (pauses + 1).min(5); // saturates: beyond the bound the count only repeats the violation
                 }
@@ -287,7 +303,7 @@ impl Model for PModel {
             crate::svm::err_name(code),
             if tags.is_empty() { String::new() } else { format!(":{}", tags.join("+")) }
         );
-        let next = if committed { Some(PState { s, pauses_in_window: pauses, devs: next_devs }) } else { None };
+        let next = if committed { Some(PState { s, pauses_in_window: pauses, devs: next_devs, reset_at }) } else { None };
         Step { next, class, violations }
     }
 
